@@ -189,17 +189,35 @@ func monC15(c *drv.Ctx) {
 			cs.Fail("nocopy-length-accounting", M{"struct": isBase}, M{"message": fmt.Sprintf("BLength %d, reference encoding %d", bl, len(want))})
 			return
 		}
-		buf := window(bl, spare)
+		// the struct is a (possibly non-final) part of a larger buffer: pre bytes before, post bytes after
+		pre, post := []int{0, 3, 100}[r.Intn(3)], []int{0, 0, 1, 50, 5000}[r.Intn(5)]
+		whole := window(pre+bl+post, spare)
+		for k := range whole {
+			whole[k] = 0xB7
+		}
+		buf := whole[pre:]
 		dwr := &doubles.DirectWriter{}
 		off := codec.FastWriteNocopy(buf, dwr)
 		sum := off
 		for _, p := range dwr.Pieces {
 			sum += len(p)
 		}
-		cs.Desc = M{"is_base": isBase, "blength": bl, "spare_cap": spare, "extra_entries": len(extra), "returned_offset": off, "pieces": len(dwr.Pieces), "remains": fmt.Sprint(dwr.Remains)}
+		cs.Desc = M{"is_base": isBase, "blength": bl, "spare_cap": spare, "bytes_before": pre, "bytes_after": post, "extra_entries": len(extra), "returned_offset": off, "pieces": len(dwr.Pieces), "remains": fmt.Sprint(dwr.Remains)}
 		if sum != bl {
 			cs.Fail("nocopy-length-accounting", M{"struct": isBase}, M{"message": fmt.Sprintf("returned offset %d + pieces = %d, BLength %d", off, sum, bl)})
 			return
+		}
+		for k := 0; k < pre; k++ {
+			if whole[k] != 0xB7 {
+				cs.Fail("nocopy-wrote-outside", M{"struct": isBase}, M{"message": "bytes before the struct's buffer were modified"})
+				return
+			}
+		}
+		for k := pre + bl; k < len(whole); k++ {
+			if whole[k] != 0xB7 {
+				cs.Fail("nocopy-wrote-outside", M{"struct": isBase}, M{"message": fmt.Sprintf("byte %d after the struct's %d advertised bytes was modified", k-pre-bl, bl)})
+				return
+			}
 		}
 		got, ok := dwr.Splice(buf, off)
 		if !ok {
